@@ -1,0 +1,17 @@
+//go:build verif
+
+package http
+
+import "net/http"
+
+// Handler exposes the gin engine (routes, binding, handlers) so that the
+// verification harness can serve requests without a TCP connection.
+func (h *Http) Handler() http.Handler {
+	return h.server.Handler
+}
+
+// CloseListener releases the listening socket of a subsystem that is never
+// started.
+func (h *Http) CloseListener() error {
+	return h.listen.Close()
+}
